@@ -45,6 +45,26 @@ def run(ck, rng, tier):
         X, lab = gen(rng, ncl, m, per, sep)
         Xt, labt = gen(rng, ncl, m, [3] * ncl, sep)
         kind = rng.choice(("plain", "affine", "rowperm"))
+        if c == 9:
+            # integer-valued features whose class means are integers, one of them EXACTLY 0 in a feature that is not the last
+            # (class 0: mean (0, 5, 2, ...)); compared with the same data moved by (3, -2, 1, ...): kind "affine" with A = I
+            ncl, m = 2, rng.randint(3, 4)
+            per = [6, 6]
+            dev = [-2.0, -1.0, -1.0, 1.0, 1.0, 2.0]
+            means = [[0.0, 5.0, 2.0, -4.0][:m], [6.0, 0.0, -3.0, 1.0][:m]]
+            rows_, lab = [], []
+            for k_ in range(2):
+                cols_ = []
+                for j_ in range(m):
+                    d_ = dev[:]; rng.shuffle(d_)
+                    cols_.append([means[k_][j_] + (j_ + 1) * v for v in d_])
+                for i_ in range(6):
+                    rows_.append([cols_[j_][i_] for j_ in range(m)]); lab.append(k_)
+            idx_ = list(range(12)); rng.shuffle(idx_)
+            X, lab = np.array(rows_)[idx_], [lab[i_] for i_ in idx_]
+            Xt = np.array([[means[k_][j_] + rng.choice((-1.0, 0.0, 1.0)) for j_ in range(m)] for k_ in (0, 1, 0)])
+            sep, kind = 6.0, "affine"
+            ck.count("integer data with a class mean that is exactly 0 in an inner feature")
         if c in (2, 3, 4, 5, 6, 7, 8):
             kind = "affine"
         if c == 4:
@@ -67,6 +87,8 @@ def run(ck, rng, tier):
                 A, cvec = A * 1e39, cvec * 1e39
             elif c == 6:    # a diagonal re-coding of condition 100 in units of 4e2 .. 4e4
                 A, cvec = np.diag(np.logspace(math.log10(4e2), math.log10(4e4), m)), cvec * 1e3
+            elif c == 9:
+                A, cvec = np.eye(m), np.array([3.0, -2.0, 1.0, 5.0][:m])
             elif c in (7, 8):
                 # features in different units within one data set: the first in units of 1e5 (variance of order 1e10), another in
                 # units of 1e-2 (variance of order 1e-4), the rest of unit scale; in the other order for c == 8
